@@ -33,8 +33,8 @@ theorem ninv_rdr (msgP : Bytes → Bool) (n : NSt) (r : Rpc) (h : NInv msgP n r)
     simp only [nbudget]; omega
   exact ⟨by rw [hu, hb]; exact h.nofire, h.noreply⟩
 
-theorem ninv_fwd (msgP : Bytes → Bool) (idOf : Bytes → Nat) (n : NSt) (r : Rpc) (h : NInv msgP n r) :
-    NInv msgP (nstep msgP idOf n) r := by
+theorem ninv_fwd (msgP : Bytes → Bool) (idOf : Bytes → Nat) (echoRest : Bytes → Option Bytes) (n : NSt) (r : Rpc) (h : NInv msgP n r) :
+    NInv msgP (nstep msgP idOf echoRest n) r := by
   unfold nstep
   split
   · exact h
@@ -124,8 +124,8 @@ theorem ninv_rpc_result (msgP : Bytes → Bool) (p : Bool) (n n' : NSt) (r : Rpc
   · rw [h.noreply] at hm; simp at hm
 
 /-- what a run preserves while the RPC is in flight -/
-theorem nrun_inv (msgP : Bytes → Bool) (idOf : Bytes → Nat) (sched : List NActor) (n n1 : NSt)
-    (r r1 : Rpc) (h : NInv msgP n r) (hr : nrun msgP idOf sched n r = (n1, .inl r1)) :
+theorem nrun_inv (msgP : Bytes → Bool) (idOf : Bytes → Nat) (echoRest : Bytes → Option Bytes) (sched : List NActor) (n n1 : NSt)
+    (r r1 : Rpc) (h : NInv msgP n r) (hr : nrun msgP idOf echoRest sched n r = (n1, .inl r1)) :
     NInv msgP n1 r1 ∧ r1.writes.length ≤ r.writes.length ∧ (n.ch.left = 0 → n1.ch.left = 0) := by
   induction sched generalizing n r with
   | nil =>
@@ -141,7 +141,7 @@ theorem nrun_inv (msgP : Bytes → Bool) (idOf : Bytes → Nat) (sched : List NA
       exact ⟨a1, a2, fun h0 => a3 (rstep_left_zero n.ch h0)⟩
     | fwd =>
       simp only [nrun] at hr
-      obtain ⟨a1, a2, a3⟩ := ih _ r (ninv_fwd msgP idOf n r h) hr
+      obtain ⟨a1, a2, a3⟩ := ih _ r (ninv_fwd msgP idOf echoRest n r h) hr
       refine ⟨a1, a2, fun h0 => a3 ?_⟩
       unfold nstep
       split
@@ -156,7 +156,9 @@ theorem nrun_inv (msgP : Bytes → Bool) (idOf : Bytes → Nat) (sched : List NA
         · rename_i c s' hrd
           obtain ⟨_, _, hs'⟩ := chRead_data n.ch s' c hrd
           have : s'.left = 0 := by rw [hs']; exact h0
-          split <;> exact this
+          split
+          · split <;> exact this
+          · exact this
     | rpc p =>
       simp only [nrun] at hr
       rcases hs : rpcStep p n r with ⟨n2, r2 | res⟩
@@ -169,15 +171,15 @@ theorem nrun_inv (msgP : Bytes → Bool) (idOf : Bytes → Nat) (sched : List NA
         simp at hr
 
 /-- a run that returns: only an error is possible -/
-theorem nrun_result (msgP : Bytes → Bool) (idOf : Bytes → Nat) (sched : List NActor) (n n' : NSt)
-    (r : Rpc) (res : Res) (h : NInv msgP n r) (hr : nrun msgP idOf sched n r = (n', .inr res)) :
+theorem nrun_result (msgP : Bytes → Bool) (idOf : Bytes → Nat) (echoRest : Bytes → Option Bytes) (sched : List NActor) (n n' : NSt)
+    (r : Rpc) (res : Res) (h : NInv msgP n r) (hr : nrun msgP idOf echoRest sched n r = (n', .inr res)) :
     ∃ e, res = .error e := by
   induction sched generalizing n r with
   | nil => simp [nrun] at hr
   | cons a t ih =>
     cases a with
     | rdr => simp only [nrun] at hr; exact ih _ r (ninv_rdr msgP n r h) hr
-    | fwd => simp only [nrun] at hr; exact ih _ r (ninv_fwd msgP idOf n r h) hr
+    | fwd => simp only [nrun] at hr; exact ih _ r (ninv_fwd msgP idOf echoRest n r h) hr
     | rpc p =>
       simp only [nrun] at hr
       rcases hs : rpcStep p n r with ⟨n2, r2 | res2⟩
@@ -191,10 +193,10 @@ theorem nrun_result (msgP : Bytes → Bool) (idOf : Bytes → Nat) (sched : List
         subst h3
         exact ninv_rpc_result msgP p n n2 r res2 h hs
 
-theorem nrun_append (msgP : Bytes → Bool) (idOf : Bytes → Nat) (l1 l2 : List NActor) (n : NSt) (r : Rpc) :
-    nrun msgP idOf (l1 ++ l2) n r =
-      match nrun msgP idOf l1 n r with
-      | (n1, .inl r1) => nrun msgP idOf l2 n1 r1
+theorem nrun_append (msgP : Bytes → Bool) (idOf : Bytes → Nat) (echoRest : Bytes → Option Bytes) (l1 l2 : List NActor) (n : NSt) (r : Rpc) :
+    nrun msgP idOf echoRest (l1 ++ l2) n r =
+      match nrun msgP idOf echoRest l1 n r with
+      | (n1, .inl r1) => nrun msgP idOf echoRest l2 n1 r1
       | (n1, .inr res) => (n1, .inr res) := by
   induction l1 generalizing n r with
   | nil => simp [nrun]
@@ -231,9 +233,9 @@ theorem rpcCount_nticks (ords : List Nat) : rpcCount (nticks ords) = ords.length
 
 /-- Once `Driver.read` holds an error for `d.errs`, `sendRPC` returns an error after its remaining
     writes plus one step, however the three goroutines interleave. -/
-theorem fwdready_returns (msgP : Bytes → Bool) (idOf : Bytes → Nat) (sched : List NActor) (n : NSt)
+theorem fwdready_returns (msgP : Bytes → Bool) (idOf : Bytes → Nat) (echoRest : Bytes → Option Bytes) (sched : List NActor) (n : NSt)
     (r : Rpc) (h : NInv msgP n r) (hf : n.fwd.isSome = true) (hc : r.writes.length < rpcCount sched) :
-    ∃ n' e, nrun msgP idOf sched n r = (n', .inr (.error e)) := by
+    ∃ n' e, nrun msgP idOf echoRest sched n r = (n', .inr (.error e)) := by
   induction sched generalizing n r with
   | nil => simp [rpcCount] at hc
   | cons a t ih =>
@@ -243,7 +245,7 @@ theorem fwdready_returns (msgP : Bytes → Bool) (idOf : Bytes → Nat) (sched :
       exact ih _ r (ninv_rdr msgP n r h) hf (by simpa [rpcCount] using hc)
     | fwd =>
       simp only [nrun]
-      have : nstep msgP idOf n = n := by
+      have : nstep msgP idOf echoRest n = n := by
         unfold nstep
         cases hfw : n.fwd with
         | none => rw [hfw] at hf; simp at hf
@@ -269,8 +271,8 @@ theorem fwdready_returns (msgP : Bytes → Bool) (idOf : Bytes → Nat) (sched :
 /-- the channel's read goroutine is armed or `Driver.read` already holds the error -/
 def NArmed (n : NSt) : Prop := n.fwd.isSome = true ∨ Armed n.ch
 
-theorem narmed_fwd (msgP : Bytes → Bool) (idOf : Bytes → Nat) (n : NSt) (h : NArmed n) :
-    (nstep msgP idOf n).fwd.isSome = true := by
+theorem narmed_fwd (msgP : Bytes → Bool) (idOf : Bytes → Nat) (echoRest : Bytes → Option Bytes) (n : NSt) (h : NArmed n) :
+    (nstep msgP idOf echoRest n).fwd.isSome = true := by
   unfold nstep
   cases hf : n.fwd with
   | some e => simp [hf]
@@ -305,8 +307,8 @@ theorem rstep_newly_lost (s : St) (h : (rstep s).lost = true) (h0 : s.lost = fal
       · simp_all
       · split <;> simp_all
 
-theorem nstep_lost (msgP : Bytes → Bool) (idOf : Bytes → Nat) (n : NSt) :
-    (nstep msgP idOf n).ch.lost = n.ch.lost := by
+theorem nstep_lost (msgP : Bytes → Bool) (idOf : Bytes → Nat) (echoRest : Bytes → Option Bytes) (n : NSt) :
+    (nstep msgP idOf echoRest n).ch.lost = n.ch.lost := by
   unfold nstep
   split
   · rfl
@@ -323,14 +325,16 @@ theorem nstep_lost (msgP : Bytes → Bool) (idOf : Bytes → Nat) (n : NSt) :
     · rename_i c s' hr
       obtain ⟨_, _, hs'⟩ := chRead_data n.ch s' c hr
       have : s'.lost = n.ch.lost := by rw [hs']
-      split <;> exact this
+      split
+      · split <;> exact this
+      · exact this
 
 /-- within one RPC: once a transport read has reported the loss, the error is on its way -/
 def NLostArmed (n : NSt) : Prop := n.ch.lost = true → NArmed n
 
-theorem nrun_lostArmed (msgP : Bytes → Bool) (idOf : Bytes → Nat) (sched : List NActor) (n n1 : NSt)
+theorem nrun_lostArmed (msgP : Bytes → Bool) (idOf : Bytes → Nat) (echoRest : Bytes → Option Bytes) (sched : List NActor) (n n1 : NSt)
     (r r1 : Rpc) (h : NInv msgP n r) (hl : NLostArmed n)
-    (hr : nrun msgP idOf sched n r = (n1, .inl r1)) : NLostArmed n1 := by
+    (hr : nrun msgP idOf echoRest sched n r = (n1, .inl r1)) : NLostArmed n1 := by
   induction sched generalizing n r with
   | nil =>
     simp [nrun] at hr
@@ -348,10 +352,10 @@ theorem nrun_lostArmed (msgP : Bytes → Bool) (idOf : Bytes → Nat) (sched : L
       | false => exact Or.inr (rstep_newly_lost n.ch hlost h0)
     | fwd =>
       simp only [nrun] at hr
-      apply ih _ r (ninv_fwd msgP idOf n r h) _ hr
+      apply ih _ r (ninv_fwd msgP idOf echoRest n r h) _ hr
       intro hlost
       rw [nstep_lost] at hlost
-      exact Or.inl (narmed_fwd msgP idOf n (hl hlost))
+      exact Or.inl (narmed_fwd msgP idOf echoRest n (hl hlost))
     | rpc p =>
       simp only [nrun] at hr
       rcases hs : rpcStep p n r with ⟨n2, r2 | res⟩
@@ -372,13 +376,13 @@ theorem nrun_lostArmed (msgP : Bytes → Bool) (idOf : Bytes → Nat) (sched : L
 
 /-- From an armed state: one `Driver.read` step puts the error into `d.errs`' hand-off, after which
     `sendRPC` needs its remaining writes plus one step. -/
-theorem narmed_returns (msgP : Bytes → Bool) (idOf : Bytes → Nat) (pre post : List NActor) (n : NSt)
+theorem narmed_returns (msgP : Bytes → Bool) (idOf : Bytes → Nat) (echoRest : Bytes → Option Bytes) (pre post : List NActor) (n : NSt)
     (r : Rpc) (h : NInv msgP n r) (ha : NArmed n) (hc : r.writes.length < rpcCount post) :
-    ∃ n' e, nrun msgP idOf (pre ++ .fwd :: post) n r = (n', .inr (.error e)) := by
+    ∃ n' e, nrun msgP idOf echoRest (pre ++ .fwd :: post) n r = (n', .inr (.error e)) := by
   induction pre generalizing n r with
   | nil =>
     simp only [List.nil_append, nrun]
-    exact fwdready_returns msgP idOf post _ r (ninv_fwd msgP idOf n r h) (narmed_fwd msgP idOf n ha) hc
+    exact fwdready_returns msgP idOf echoRest post _ r (ninv_fwd msgP idOf echoRest n r h) (narmed_fwd msgP idOf echoRest n ha) hc
   | cons a t ih =>
     cases a with
     | rdr =>
@@ -386,7 +390,7 @@ theorem narmed_returns (msgP : Bytes → Bool) (idOf : Bytes → Nat) (pre post 
       exact ih _ r (ninv_rdr msgP n r h) (narmed_rdr n ha) hc
     | fwd =>
       simp only [List.cons_append, nrun]
-      exact ih _ r (ninv_fwd msgP idOf n r h) (Or.inl (narmed_fwd msgP idOf n ha)) hc
+      exact ih _ r (ninv_fwd msgP idOf echoRest n r h) (Or.inl (narmed_fwd msgP idOf echoRest n ha)) hc
     | rpc p =>
       simp only [List.cons_append, nrun]
       rcases hs : rpcStep p n r with ⟨n2, r2 | res⟩
@@ -409,9 +413,9 @@ theorem ntick_split (ord : Nat) : ∃ a b, ntick ord = a ++ .fwd :: b ∧ rpcCou
   · exact ⟨[.rpc _], [.rdr], rfl, by simp [rpcCount]⟩
 
 
-theorem nrun_narmed (msgP : Bytes → Bool) (idOf : Bytes → Nat) (sched : List NActor) (n n1 : NSt)
+theorem nrun_narmed (msgP : Bytes → Bool) (idOf : Bytes → Nat) (echoRest : Bytes → Option Bytes) (sched : List NActor) (n n1 : NSt)
     (r r1 : Rpc) (h : NInv msgP n r) (ha : NArmed n)
-    (hr : nrun msgP idOf sched n r = (n1, .inl r1)) : NArmed n1 := by
+    (hr : nrun msgP idOf echoRest sched n r = (n1, .inl r1)) : NArmed n1 := by
   induction sched generalizing n r with
   | nil =>
     simp [nrun] at hr
@@ -424,7 +428,7 @@ theorem nrun_narmed (msgP : Bytes → Bool) (idOf : Bytes → Nat) (sched : List
       exact ih _ r (ninv_rdr msgP n r h) (narmed_rdr n ha) hr
     | fwd =>
       simp only [nrun] at hr
-      exact ih _ r (ninv_fwd msgP idOf n r h) (Or.inl (narmed_fwd msgP idOf n ha)) hr
+      exact ih _ r (ninv_fwd msgP idOf echoRest n r h) (Or.inl (narmed_fwd msgP idOf echoRest n ha)) hr
     | rpc p =>
       simp only [nrun] at hr
       rcases hs : rpcStep p n r with ⟨n2, r2 | res⟩
@@ -436,15 +440,15 @@ theorem nrun_narmed (msgP : Bytes → Bool) (idOf : Bytes → Nat) (sched : List
 
 /-- with a dead transport, any stretch of schedule in which the channel's read goroutine runs once
     leaves the error on its way -/
-theorem nrun_arms (msgP : Bytes → Bool) (idOf : Bytes → Nat) (a b : List NActor) (n n1 : NSt)
+theorem nrun_arms (msgP : Bytes → Bool) (idOf : Bytes → Nat) (echoRest : Bytes → Option Bytes) (a b : List NActor) (n n1 : NSt)
     (r r1 : Rpc) (h : NInv msgP n r) (h0 : n.ch.left = 0)
-    (hr : nrun msgP idOf (a ++ .rdr :: b) n r = (n1, .inl r1)) : NArmed n1 := by
+    (hr : nrun msgP idOf echoRest (a ++ .rdr :: b) n r = (n1, .inl r1)) : NArmed n1 := by
   rw [nrun_append] at hr
-  rcases ha : nrun msgP idOf a n r with ⟨n2, r2 | res⟩
+  rcases ha : nrun msgP idOf echoRest a n r with ⟨n2, r2 | res⟩
   · rw [ha] at hr
     simp only [nrun] at hr
-    obtain ⟨i1, _, i3⟩ := nrun_inv msgP idOf a n n2 r r2 h ha
-    exact nrun_narmed msgP idOf b _ n1 r2 r1 (ninv_rdr msgP n2 r2 i1)
+    obtain ⟨i1, _, i3⟩ := nrun_inv msgP idOf echoRest a n n2 r r2 h ha
+    exact nrun_narmed msgP idOf echoRest b _ n1 r2 r1 (ninv_rdr msgP n2 r2 i1)
       (Or.inr (rstep_arms n2.ch (i3 h0))) hr
   · rw [ha] at hr
     simp at hr
